@@ -30,6 +30,7 @@ var registry = map[string]entry{
 	"C13": {"exploration", props.C13},
 	"C14": {"exploration", props.C14},
 	"C15": {"exploration", props.C15},
+	"C23": {"exploration", props.C23},
 	"C24": {"exploration", props.C24},
 	"C25": {"exploration", props.C25},
 	"C26": {"exploration", props.C26},
